@@ -13,7 +13,7 @@
       already ties to the code; the composition only threads their outcomes.
     Definitions only; proofs live in Proofs/PanicsProofs.v. *)
 From KV Require Import Bytes RustInt RustStd.
-From KV Require PathSan Range RangeConn Http1Read Hosts Negotiate Cors CacheControl.
+From KV Require PathSan Range RangeConn Http1Read Hosts Negotiate Cors CacheControl Limiter.
 Open Scope N_scope.
 
 (** ** [parse::query] *)
@@ -239,6 +239,42 @@ Definition stream_chunk (checked : bool) (pos read end_ : N) : outcome (N * N) :
     obind (sub_u64 checked read over) (fun buf_end => Ok (pos', buf_end)))
   else Ok (pos', read)).
 
+(** The whole streaming loop.  [reads]: what the successive [file.read(&mut buf)] calls return ([buf] is
+    64 KiB; [0] or the end of the list = end of file).  The result is the list of the [buf_end]s, the sizes
+    of the chunks handed to [response.send]:
+    [loop { read; if read == 0 {break}; pos += read; buf_end = ..; send(&buf[..buf_end]); if pos >= end {break} }] *)
+Definition stream_buf : N := 65536.
+Fixpoint stream_loop (checked : bool) (pos end_ : N) (reads : list N) : outcome (list N) :=
+  match reads with
+  | [] => Ok []
+  | r :: rest =>
+      if r =? 0 then Ok [] else
+      obind (stream_chunk checked pos r end_) (fun pc =>
+      if stream_buf <? snd pc then Panic                                   (* &buf[..buf_end] *)
+      else if end_ <=? fst pc then Ok [snd pc]
+      else obind (stream_loop checked (fst pc) end_ rest) (fun l => Ok (snd pc :: l)))
+  end.
+Fixpoint nsum (l : list N) : N := match l with [] => 0 | x :: r => x + nsum r end.
+(** The reads before the first empty one. *)
+Fixpoint live_reads (reads : list N) : list N :=
+  match reads with
+  | [] => []
+  | r :: rest => if r =? 0 then [] else r :: live_reads rest
+  end.
+(** What a regular file of [file_len] bytes yields from offset [pos] on: full buffers, then the rest, then 0. *)
+Fixpoint file_reads (fuel : nat) (pos file_len : N) : list N :=
+  match fuel with
+  | O => []
+  | S f => if file_len <=? pos then [0]
+           else let r := N.min stream_buf (file_len - pos) in r :: file_reads f (pos + r) file_len
+  end.
+(** The streamed reply: the announced [content-length] and the number of body bytes that follow. *)
+Definition stream_reply (checked : bool) (range : option (N * N)) (file_len : N) : outcome (N * N) :=
+  obind (stream_window checked range file_len) (fun w =>
+  let '(start, end_, len) := w in
+  obind (stream_loop checked start end_ (file_reads (S (N.to_nat (file_len / stream_buf + 2))) start file_len))
+        (fun sent => Ok (len, nsum sent))).
+
 (** ** The request path *)
 
 Definition h_range : bytes := Eval vm_compute in B "range".
@@ -251,8 +287,12 @@ Definition s_gzip : bytes := Eval vm_compute in B "gzip".
 Inductive path_result :=
 | PClosed (e : N)                (** [accept] failed: the loop of [handle_connection] ends, the stream is shut down *)
 | P409                           (** no host: "The host you're looking for wasn't found." *)
+| PDropped                       (** [LimitAction::Drop]: the connection is closed without an answer *)
+| P429                           (** [LimitAction::Send]: [limiting::get_too_many_requests()] *)
 | P400                           (** [SanitizeError::UnsafePath] *)
-| P403                           (** the default CORS gate refused the Origin *)
+| PGate (r : Range.range_reply)  (** an internal page of the default CORS gate — 403 "CORS request denied" for a foreign Origin,
+                                     204 (empty) for a same-origin preflight — after the range stage of [SendKind::send],
+                                     which is applied to every answer whose sanitize data is [Ok] *)
 | PReply (w : RangeConn.wreply) (cache : option RangeConn.page) (query : list qpair) (fs_path : option bytes).
 
 (** The Accept-Encoding class of [RangeConn.choose]: 0 = no (usable) header, 1 = gzip accepted, 2 = other. *)
@@ -269,16 +309,31 @@ Definition ae_class (parse_q : bytes -> option Negotiate.qclass) (h : option byt
 Definition meth_of (m : bytes) : RangeConn.meth :=
   if beq m Http1Read.m_head then RangeConn.HEAD else RangeConn.GET.
 
+(** [host.limiter.register(address.ip())] after every earlier registration [lh] on that limiter (made at [t0]). *)
+Definition limiter_decision (checked : bool) (lcfg : Limiter.config) (t0 : N) (lh : list Limiter.event) (addr now : N)
+  : outcome Limiter.action :=
+  nth (length lh) (Limiter.decisions checked lcfg t0 (lh ++ [(addr, now)])) Panic.
+
+Definition h_acrm : bytes := Eval vm_compute in B "access-control-request-method".
+Definition cors_denied : bytes := Eval vm_compute in B "CORS request denied".
+
 Section RequestPath.
   Variable grow : nat -> nat -> nat -> nat.
   Variable parse_q : bytes -> option Negotiate.qclass.
 
-  (** [c]: the host collection; [public]: [host.options.public_data_dir]; [pg]/[cache]/[caching]: the page
-      a handler or the file system yields for this URI, given as its representations per
-      Accept-Encoding class (as in Model/RangeConn.v), the state of the response cache, and whether
-      the answer is stored; [cors_default_deny]: [Extensions::new()]'s gate. *)
+  (** [c]: the host collection; [lcfg]/[t0]/[lh]/[addr]/[now]: the chosen host's request limiter, when it was made,
+      every earlier registration on it, the client's address and the clock; [public]:
+      [host.options.public_data_dir]; [pg]/[cache]/[caching]: the page a handler or the file system yields for
+      this URI, given as its representations per Accept-Encoding class (as in Model/RangeConn.v), the state of
+      the response cache, and whether the answer is stored; [cors_default_deny]: [Extensions::new()]'s gate.
+      The order is the code's: [accept] (head, then what a handler reads of the body) -> [get_from_request] (409)
+      -> [limiter.register] (drop / 429) -> [handle_cache]: [sanitize_request] (path: 400; range with
+      start > end: 416, both BEFORE any Prime result is looked at) -> the Primes of the CORS gate (403; 204 for a
+      same-origin preflight; the range stage of [send] still applies to these pages) -> cache key -> file path -> handler -> negotiation, cache, range, send. *)
   Definition request_path (checked : bool) (mode : N) (https : bool) (c : Hosts.collection)
-      (dh : option bytes) (max_len : nat) (limit : N) (public : bytes) (cors_default_deny caching : bool)
+      (dh : option bytes) (max_len : nat) (limit : N)
+      (lcfg : Limiter.config) (t0 : N) (lh : list Limiter.event) (addr now : N)
+      (public : bytes) (cors_default_deny caching : bool)
       (pg : RangeConn.page) (cache : option RangeConn.page) (stream : bytes) (sched : list nat)
     : outcome path_result :=
     (* HttpConnection::accept: read::request, Http1Body; a handler reading the body *)
@@ -295,14 +350,25 @@ Section RequestPath.
         | Err e => Err e
         | Ok Hosts.Refuse409 => Ok P409
         | Ok (Hosts.ServeWith h) =>
+            (* host.limiter.register(address.ip()) *)
+            match limiter_decision checked lcfg t0 lh addr now with
+            | Panic => Panic
+            | Err e => Err e
+            | Ok Limiter.Drop => Ok PDropped
+            | Ok Limiter.Send => Ok P429
+            | Ok Limiter.Passed =>
             (* handle_cache: utils::sanitize_request — the path part *)
             match PathSan.sanitize_path (Http1Read.q_path q) with
             | Panic => Panic
             | Err _ => Ok P400
             | Ok _ =>
+                (* ... and the range part: an error (start > end) is answered by get_response whatever the Primes say *)
+                let range_refused :=
+                  match Range.sanitize_range (Http1Read.hm_get h_range hs) with Err _ => true | _ => false end in
                 (* resolve_prime: the CORS gate of Extensions::new() *)
+                let origin := Http1Read.hm_get h_origin hs in
                 let origin_ok :=
-                  match Http1Read.hm_get h_origin hs with
+                  match origin with
                   | None => true
                   | Some o =>
                       negb cors_default_deny ||
@@ -310,7 +376,13 @@ Section RequestPath.
                        Cors.is_part_of_origin o (Some (if https then s_https else s_http))
                                               (Some (Http1Read.q_authority q)))
                   end in
-                if negb origin_ok then Ok P403 else
+                let preflight :=
+                  cors_default_deny && beq (Http1Read.q_method q) Http1Read.m_options &&
+                  match origin, Http1Read.hm_get h_acrm hs with Some _, Some _ => true | _, _ => false end in
+                if negb range_refused && negb origin_ok then
+                  obind (Range.serve_range checked (Http1Read.hm_get h_range hs) 403 cors_denied) (fun r => Ok (PGate r)) else
+                if negb range_refused && preflight then
+                  obind (Range.serve_range checked (Http1Read.hm_get h_range hs) 204 []) (fun r => Ok (PGate r)) else
                 (* UriKey::path_and_query: PathQuery::from(uri), .path(), .query() *)
                 let pq := pq_from (Http1Read.q_path q) (Http1Read.q_query q) in
                 obind (pq_path pq) (fun _ =>
@@ -326,6 +398,7 @@ Section RequestPath.
                              RangeConn.q_range := Http1Read.hm_get h_range hs |} in
                 let (o, cache') := RangeConn.conn_step checked caching pg cache cq in
                 obind o (fun w => Ok (PReply w cache' qs fs_path))))))
+            end
             end
         end
     end.
@@ -393,16 +466,17 @@ Definition run_pathquery (x : xval) : xval :=
   | _ => bad_input
   end.
 
-(** component stream.window: (L checked (L [range header]) file_len) -> outcome of the announced
-    content-length ([len]); a header that [sanitize_request] refuses is answered 416 by [handle_cache]
+(** component stream.window: (L checked (L [range header]) file_len) -> outcome of (L announced sent): the
+    announced content-length ([len]) and the number of body bytes the loop sends for a regular file of
+    [file_len] bytes; a header that [sanitize_request] refuses is answered 416 by [handle_cache]
     before the extension runs. *)
 Definition run_stream_window (x : xval) : xval :=
   match x with
   | XL [c; h; XN file_len] =>
       match d_bool c, d_option d_B h with
       | Some checked, Some hdr =>
-          x_outcome XN (obind (Range.sanitize_range hdr) (fun range =>
-                        obind (stream_window checked range file_len) (fun t => Ok (snd t))))
+          x_outcome (fun p => XL [XN (fst p); XN (snd p)])
+                    (obind (Range.sanitize_range hdr) (fun range => stream_reply checked range file_len))
       | _, _ => bad_input
       end
   | _ => bad_input
@@ -426,6 +500,52 @@ Definition run_cc_kvarn (x : xval) : xval :=
   | _ => bad_input
   end.
 
+(** component c02.path: (L checked (B stream) (L segment..) no_default) -> outcome of the class of the answer to ONE request sent
+    to the harness's minimal collection: default host [localhost] + [b.example] (alias [alias.example]), both
+    [Extensions::new()] + one handler for every path that reads the body (64 KiB) and answers a 10-byte page, no
+    response cache, limiter off.  Classes: (L (N 0)) closed without an answer | (L (N 409)) | (L (N 400)) | (L (N 403)) |
+    (L (N 204)) | (L (N 416)) | (L (N 429)) | (L (N 1) status content-length (L [content-range]) body). *)
+Definition path_ops : list Hosts.op :=
+  [(true, {| Hosts.h_name := B "localhost"; Hosts.h_alts := [] |});
+   (false, {| Hosts.h_name := B "b.example"; Hosts.h_alts := [B "alias.example"] |})].
+Definition path_coll : Hosts.collection :=
+  match Hosts.build path_ops with Ok c => c | _ => Hosts.empty_collection end.
+Definition path_body : bytes := Eval vm_compute in B "0123456789".
+Definition path_page : RangeConn.page :=
+  let r := {| RangeConn.rp_encoding := None; RangeConn.rp_body := path_body |} in [r; r; r].
+Definition x_path_result (r : path_result) : xval :=
+  match r with
+  | PClosed _ => XL [XN 0]
+  | PDropped => XL [XN 0]
+  | P409 => XL [XN 409]
+  | P429 => XL [XN 429]
+  | P400 => XL [XN 400]
+  | PGate Range.R416 => XL [XN 416]
+  | PGate (Range.RResp r) => XL [XN (Range.r_status r)]
+  | PReply RangeConn.W416 _ _ _ => XL [XN 416]
+  | PReply (RangeConn.WResp w) _ _ _ =>
+      XL [XN 1; XN (RangeConn.w_status w); XN (RangeConn.w_content_length w); x_option XB (RangeConn.w_content_range w);
+          XB (RangeConn.w_body w)]
+  end.
+Definition path_coll_nd : Hosts.collection :=
+  match Hosts.build (map (fun o => (false, snd o)) path_ops) with Ok c => c | _ => Hosts.empty_collection end.
+Definition run_c02_path (x : xval) : xval :=
+  match x with
+  | XL [c; XB stream; segs; nd] =>
+      match d_bool c, d_list d_nat segs, d_bool nd with
+      | Some checked, Some sched, Some no_default =>
+          x_outcome x_path_result
+            (request_path Http1Read.vec_grow Negotiate.parse_q_dec checked 0 false
+               (if no_default then path_coll_nd else path_coll) (if no_default then None else Some (B "localhost"))
+               (N.to_nat 16384) 65536 (Limiter.disable Limiter.default_config) 0 [] 1 0
+               (B "public") true false path_page None stream
+               (* the client writes the segments, then closes its sending side: what is left arrives as one read *)
+               (sched ++ [length stream]))
+      | _, _, _ => bad_input
+      end
+  | _ => bad_input
+  end.
+
 (** components explore.*: exploration runs (a live connection, crates that are not modelled).
     The "model" is the claim under test — the run ends cleanly — so that a panic shows up as
     a difference as well as in the model-independent oracle. *)
@@ -439,5 +559,9 @@ Definition panics_table : list (bytes * (xval -> xval)) :=
     (B "pathquery", run_pathquery);
     (B "stream.window", run_stream_window);
     (B "cc.kvarn", run_cc_kvarn);
+    (B "c02.path", run_c02_path);
     (B "explore.conn", run_explore);
+    (B "explore.server", run_explore);
+    (B "explore.file", run_explore);
+    (B "explore.urls", run_explore);
     (B "explore.date", run_explore) ].
